@@ -111,7 +111,14 @@ def sanitise_rule(repo: Repo, rep: Report, rid: str) -> None:
                     checked = True
                 if isinstance(c, ast.Call) and isinstance(c.func, ast.Name) and any(k in c.func.id.lower() for k in ("sanit", "escape", "identifier", "mangle")):
                     checked = True
-            key = f"{fi.key}:{where} <- {src} in '{' '.join(t.text.split())[:60]}'"
+            # the construct is named by what fills the hole (followed through plain locals) and by the constant skeleton of the template: the names of
+            # the other holes, and helper functions a refactoring moves the emitter into, do not change which emit site this is
+            from ..util import resolve_local as _rl3
+
+            src_res = norm(_rl3(fi.node, hole)) if isinstance(hole, ast.Name) else src
+            role = "<type>.__name__" if src_res.endswith(".__name__") else "<name>"
+            skeleton = re.sub(r"Ħ[^Ħ]*Ħ", "Ħ", " ".join(t.text.split()))[:50]
+            key = f"tools/stubgen.py:{where} <- {role} in '{skeleton}'"
             rep.check(checked, rid, key, "validated before emission",
                       f"'{src}' is emitted as {where} without an isidentifier()/iskeyword() check: a definition using a Python keyword or a name "
                       f"starting with a digit (struct k {{ uint32 from; }}) yields a stub that is not valid Python", t.loc())
